@@ -653,7 +653,28 @@ def _shift_spec(obj, args):
     return None
 
 
+def _add_linear_spec(obj, args):
+    import itertools
+    lits, op, k, check = args
+    if op not in ("<=", ">=", "<", ">", "==", "!=") or 0 in lits or len(lits) > 7:
+        return None
+    before = list(obj.clauses())
+    obj.add_linear(list(lits), op, k, check)
+    new = [list(c) for c in obj.clauses()][len(before):]
+    vs = sorted({abs(l) for l in lits})
+    for r in range(len(vs) + 1):
+        for true in itertools.combinations(vs, r):
+            t = set(true)
+            cnt = sum(1 for l in lits if (l > 0 and l in t) or (l < 0 and -l not in t))
+            want = {"<=": cnt <= k, ">=": cnt >= k, "<": cnt < k, ">": cnt > k, "==": cnt == k, "!=": cnt != k}[op]
+            got = all(any((l > 0 and l in t) or (l < 0 and -l not in t) for l in c) for c in new)
+            if want != got:
+                return {"lits": lits, "op": op, "k": k, "true": list(true), "count": cnt, "clauses": new[:8], "clauses_hold": got}
+    return None
+
+
 ORACLES = {
+    "CNFLinear.add_linear": _add_linear_spec,
     "bipartite_shift": _shift_spec,
     "dag_path": _dag_spec("dag_path"),
     "dag_complete_binary_tree": _dag_spec("dag_complete_binary_tree"),
